@@ -424,6 +424,11 @@ void NifFile::SortController(NiTimeController* controller, SortState& sortState)
 }
 
 void NifFile::SortCollision(NiObject* parent, uint32_t parentIndex, SortState& sortState) {
+	// Blocks that are already being sorted further up the call chain are skipped,
+	// otherwise reference cycles in malformed files would recurse without end
+	if (!sortState.collisionIndicesInProgress.insert(parentIndex).second)
+		return;
+
 	auto constraint = dynamic_cast<bhkConstraint*>(parent);
 	if (constraint) {
 		for (auto& entityId : constraint->entityRefs) {
@@ -478,6 +483,8 @@ void NifFile::SortCollision(NiObject* parent, uint32_t parentIndex, SortState& s
 				SortCollision(child, id, sortState);
 		}
 	}
+
+	sortState.collisionIndicesInProgress.erase(parentIndex);
 }
 
 void NifFile::SortShape(NiShape* shape, SortState& sortState) {
